@@ -1555,7 +1555,11 @@ func (x *SX) call(call *ast.CallExpr, st *sxState, nres int) []evalOut {
 			if hasFuncArg || !x.pureCall(fun) || (x.ForceStep != nil && fun != nil && x.ForceStep(fun)) {
 				ao.st.epoch++
 				tt := t
-				ao.st.steps = append(ao.st.steps, Step{Kind: "call", Call: &tt, Node: call})
+				stp := Step{Kind: "call", Call: &tt, Node: call}
+				if hasFuncArg {
+					stp.Env = copyEnv(ao.st.env) // environment the literal captures, before the callee may run it
+				}
+				ao.st.steps = append(ao.st.steps, stp)
 			}
 			// a function literal handed to an opaque callee may run and assign the locals it captures: those are unknown afterwards
 			for _, a := range args {
